@@ -44,6 +44,12 @@ def _open(E, effs, mode, depth):
             continue
         # bindings of everything above (the deepest Link carries them); the closure's captures are resolved by the slicer
         base = dict(e.mapping or (e.chain[-1].mapping if e.chain and isinstance(e.chain[-1], Link) else None) or {})
+        if not e.mapping and e.chain and isinstance(e.chain[-1], Link):
+            # the library does not attach the bindings of the function containing a CALLBACK call: rebuild them from the
+            # link above when that link is a plain call of this function (its parameters are then the call's arguments)
+            l = e.chain[-1]
+            if not l.call.indirect and e.call.fn in E.prog.callee_fns(l.call):
+                base = E.call_mapping(l.call.fn, l.call, e.call.fn, l.mapping or {})
         base.pop('__repl__', None)
         m = dict(base)
         for i, b in enumerate(bind):
@@ -351,6 +357,15 @@ def same_through_helpers(sl, a, b):
     return same(a, b) or same(returned(sl, a), returned(sl, b))
 
 
+def same_object(sl, a, b):
+    """like same_through_helpers, but two constructor calls at different sites (`&BTreeMap::new()` here, `let m =
+    BTreeMap::new()` there) are different objects although they are equal values"""
+    x, y = strip(a), strip(b)
+    if x[0] == 'call' and y[0] == 'call' and len(x) == 4 and len(y) == 4 and x[3] is not None and y[3] is not None and x[3] != y[3]:
+        return False
+    return same_through_helpers(sl, a, b)
+
+
 _OPT_VIEW = ('::as_ref', '::clone', '::as_deref', '::as_mut', '::as_deref_mut')
 
 
@@ -377,3 +392,875 @@ def option_arm(E, e, is_subject):
     if not found:
         return None
     return found.pop() if len(found) == 1 else '?'
+
+
+# ======================================================================================================
+# deepening round: obligations on the functions that carry the data (build_binary, cargo.rs, buildpack_kind.rs,
+# output.rs, discovery) and end-to-end normal forms in `execute`'s terms
+# ======================================================================================================
+from .lib.guards import always_through, edge_dominates
+from .lib.value import vstr
+
+
+def every_element(E, e):
+    """does effect e run for *every* element of the one collection it is iterated over (on every iteration that does
+    not fail)?  -> (verdict, reason, Iteration|None) with verdict 'ok' | 'violated' | 'unproven' | 'none' (not iterated).
+    Filter stages, truncating adapters, `if` / `match` decisions inside the body are visible to selection(); an early
+    `continue` / `break` under a compound condition is not (no single edge dominates), so every path from the start of
+    the body to the next iteration or to a success exit has to pass through the call."""
+    sl = E.slicer
+    sel = selection(E, e)
+    if not sel.iterations:
+        return 'none', 'not inside an iteration', None
+    if len(sel.iterations) != 1:
+        return 'unproven', 'nested iterations', None
+    it = sel.iterations[0]
+    if it.recv is None:
+        return 'unproven', 'a loop whose collection is not known', it
+    if any(fl == 'trunc' for _, _, fl in iters.alts(sl, it.recv)) or \
+            any(st[3] for st in iters.stages(strip(it.recv), with_stop=True)):
+        return 'violated', 'a truncating adapter (take / skip / take_while / map_while / ..) drops elements by position', it
+    if it.preds:
+        return 'violated', 'a filter stage drops elements: %s' % '; '.join(vstr(p[0])[:80] for p in it.preds), it
+    if it.opaque:
+        return 'unproven', 'an adapter whose selection cannot be stated', it
+    if sel.guards:
+        return 'violated', 'runs only under a per-element condition: %s' % '; '.join(vstr(vs[0][0])[:80] for _, _, vs in sel.guards), it
+    ls = levels(e)
+    j = it.level
+    c = ls[j][0]
+    f = c.fn
+    lps = sorted((L for L in E.loops(f) if c.bb in L.body and c.bb != L.header), key=lambda L: -len(L.body))
+    if lps:
+        L = lps[0]
+        tb = L.next_call.target
+        entries = [s for s in f.succs(tb) if s in L.body] if tb is not None else []
+        ends = {L.header} | {s.bb for s in E.sites(f)}
+        skip = [L.exhaust] if getattr(L, 'exhaust', None) else []
+        if not entries:
+            return 'unproven', 'loop body not found', it
+        if not all(always_through(f, s, c.bb, ends, skip) for s in entries):
+            return 'violated', 'an iteration can go on to the next element (or leave the loop successfully) without reaching it', it
+        first = j + 1
+    else:
+        # the body is the closure handed to an iterator adapter / consumer: the next level
+        if j + 1 >= len(ls):
+            return 'unproven', 'iteration without a body', it
+        first = j + 1
+    for k in range(first, len(ls)):
+        ck = ls[k][0]
+        fk = ck.fn
+        if k > first or lps:
+            if not _direct(E, ls[k - 1][0], fk):
+                return 'unproven', 'reached through an indirect call', it
+        sites = [s.bb for s in E.sites(fk)] or list(fk.return_blocks())
+        if not always_through(fk, 0, ck.bb, sites):
+            return 'violated', '%s can succeed without reaching it' % fk.path, it
+    return 'ok', '', it
+
+
+# ---- path / command normal forms -------------------------------------------------------------------------
+_PATH_WRAP = ('::into_std_path_buf', '::to_path_buf', '::as_path', '::as_std_path', '::as_ref', '::deref', '::clone', '::into', '::to_owned',
+              '::borrow', '::into_path_buf', '::as_str', '::to_string', '::as_os_str', '::into_os_string')
+
+
+def peel_path(v):
+    """peel conversions that do not change which path / string a value denotes"""
+    for _ in range(16):
+        v = strip(v)
+        if v[0] == 'call' and len(v[2]) == 1 and (v[1].endswith(_PATH_WRAP) or v[1].endswith('::from') or v[1].endswith('::new')) \
+                and ('Path' in v[1] or 'From' in v[1] or 'Into' in v[1] or 'AsRef' in v[1] or 'Deref' in v[1] or 'Clone' in v[1] or 'ToOwned' in v[1]
+                     or 'String' in v[1] or 'Borrow' in v[1] or 'str' in v[1] or 'OsStr' in v[1]):
+            v = v[2][0]
+            continue
+        return v
+    return v
+
+
+def path_comps(v, is_root):
+    """components of a path value below a root: join(join(root, a), b) -> (a, b); None when v is not such a chain"""
+    v = peel_path(v)
+    if is_root(v):
+        return ()
+    if v[0] == 'call' and v[1].endswith('::join') and len(v[2]) == 2:
+        a = path_comps(v[2][0], is_root)
+        if a is None:
+            return None
+        return a + (peel_path(v[2][1]),)
+    return None
+
+
+def command_parts(v):
+    """a std::process::Command builder chain -> {'program': value, 'args': [values], 'cwd': value|None, 'opaque': bool}"""
+    out = {'program': None, 'args': [], 'cwd': None, 'opaque': False}
+    chain = []
+    v = strip(v)
+    while v[0] == 'call' and v[1].startswith('std::process::Command::') and v[2]:
+        chain.append(v)
+        if v[1].endswith('::new'):
+            break
+        v = strip(v[2][0])
+    else:
+        out['opaque'] = True
+    for c in reversed(chain):
+        short = c[1].rsplit('::', 1)[1]
+        if short == 'new':
+            out['program'] = peel_path(c[2][0])
+        elif short == 'arg' and len(c[2]) == 2:
+            out['args'].append(peel_path(c[2][1]))
+        elif short == 'args' and len(c[2]) == 2:
+            a = strip(c[2][1])
+            if a[0] == 'array':
+                out['args'].extend(peel_path(x) for x in a[1])
+            else:
+                out['args'].append(('splat', a))
+        elif short == 'current_dir' and len(c[2]) == 2:
+            out['cwd'] = peel_path(c[2][1])
+    return out
+
+
+def const_of(v):
+    v = peel_path(v)
+    return v[1] if v[0] == 'const' else None
+
+
+def select_map(v):
+    """('select', subject, enum, ((variant names, value)..)) -> {variant: const}; None if not such a table"""
+    v = strip(v)
+    if v[0] != 'select':
+        return None
+    out = {}
+    for names, rv in v[3]:
+        c = const_of(rv)
+        if c is None:
+            return None
+        for n in names:
+            out[n] = c
+    return out
+
+
+def call_closure_value(sl, v):
+    """a call of a closure value (`resolver(&id)`): the value the closure returns for these arguments, else None"""
+    v = strip(v)
+    if v[0] != 'call' or len(v[2]) != 2:
+        return None
+    g = sl.prog.fns.get(v[1])
+    if (g is None or g.kind != 'Closure') and v[1] not in FN_CALL:
+        return None
+    recv, tv = strip(v[2][0]), strip(v[2][1])
+    if recv[0] == 'call':
+        recv = strip(sl.inline_call(recv) or ('unknown', 'recv'))
+    if recv[0] != 'closure' or tv[0] != 'tuple':
+        return None
+    return sl.apply_closure(recv, tv[1])
+
+
+# ---- R7 / R8: every node is packaged; end-to-end normal forms in `execute`'s terms ---------------------------
+GD = 'libcnb_package::dependency_graph::get_dependencies'
+GRAPH = 'libcnb_package::buildpack_dependency_graph::build_libcnb_buildpacks_dependency_graph'
+AP = 'libcnb_package::util::absolutize_path'
+WR = 'libcnb_package::find_cargo_workspace_root_dir'
+DETERMINE = 'libcnb_package::cargo::determine_buildpack_cargo_target_name'
+NAMES = 'libcnb_package::cargo::cargo_binary_target_names'
+BBB = 'libcnb_package::build::build_buildpack_binaries'
+KEEP = (GD, GRAPH, AP, WR, DETERMINE, NAMES)
+MUT = {'REMOVE_FILE', 'REMOVE_DIR', 'REMOVE_TREE', 'CHMOD', 'MKDIR', 'WRITE', 'RENAME', 'OPEN'}
+
+
+def _w(f):
+    return '%s:%d' % (f.file, f.line)
+
+
+def norm(sl, v, keep=KEEP):
+    """value with closure calls applied and private / workspace helpers inlined (except the ones in `keep`)"""
+    if v is None:
+        return None
+    for _ in range(3):
+        v0 = v
+        v = _map_values(v, lambda x: call_closure_value(sl, x))
+        v = sl.inline_deep(v, depth=8, keep=keep)
+        if v == v0:
+            break
+    return v
+
+
+def _map_values(v, f, depth=0):
+    if not isinstance(v, tuple) or not v or depth > 40:
+        return v
+    if isinstance(v[0], str) and v[0] == 'call':
+        r = f(v)
+        if r is not None:
+            return _map_values(r, f, depth + 1)
+    if isinstance(v[0], str) and v[0] in ('const', 'param', 'fnitem', 'constitem', 'unknown', 'closure_env', 'upvar'):
+        return v
+    return tuple(_map_values(x, f, depth + 1) if isinstance(x, tuple) else x for x in v)
+
+
+def node_of(v, field):
+    """v = <node>.<field> (conversions peeled) -> <node>"""
+    v = peel_path(v)
+    if v[0] == 'field' and v[2] == field:
+        return strip(v[1])
+    return None
+
+
+def rules_e2e(ctx, rep, ex, dest):
+    prog, sl = ctx.prog, ctx.slicer
+    from .lib.effects import Effects
+    rep.rule('R8', 'end to end, in `execute`\'s terms: what is copied / built for a node comes from that node\'s own directory and lands in that node\'s output directory')
+    E = Effects(prog, sl)
+    may = expand(E, ex, 'may')
+    if dest is None:
+        rep.unproven('R8', 'destination', _w(ex), 'no destination value (see R1)')
+        return
+    nd = norm(sl, dest)
+    is_pkgdir = lambda v: (v[0] == 'call' and v[1] == AP) or (v[0] == 'phi' and v[1] and all(strip(x)[0] == 'call' and strip(x)[1] == AP for x in v[1]))
+    dc = path_comps(nd, is_pkgdir)
+    node = None
+    ok = False
+    detail = vstr(nd)[:300]
+    if dc:
+        last = strip(dc[-1])
+        if last[0] == 'call' and last[2] and '::replace' in last[1]:
+            node = node_of(last[2][0], 'buildpack_id')
+        if node is not None and last[1].endswith('::replace') and len(last[2]) == 3:
+            pat, rp = const_of(last[2][1]), const_of(last[2][2])
+            ok = pat == '/' and isinstance(rp, str) and '/' not in rp and \
+                not any(same(x, node) for c in dc[:-1] for x in walk(c) if isinstance(x, tuple) and x and x[0] in ('unwrap', 'call', 'field'))
+    if node is None:
+        rep.unproven('R8', 'dest-shape', _w(ex), 'the output directory is not <package dir>/../<name derived from the node\'s buildpack id>: %s' % detail)
+        return
+    rep.check(ok, 'R8', 'dest-shape', _w(ex), 'output directory = <package dir>/<..>/<buildpack id with every "/" replaced>: one directory per id, none inside another',
+              'the directory name is not the buildpack id with every "/" replaced (ids with several "/" nest inside / collide with other output directories): %s' % vstr(dc[-1])[:200])
+    under = lambda v: path_comps(norm(sl, v), lambda r: same(r, nd))
+    in_loop = lambda e: bool(selection(E, e).iterations)
+    # everything that is mutated while a node is packaged lies in that node's output directory
+    outside = [e for e in may if e.kind in MUT and e.path is not None and in_loop(e) and under(e.path) is None]
+    rep.check(not outside, 'R8', 'inside-dest', outside[0].where() if outside else _w(ex), 'every file-system mutation of the packaging loop lies in the node\'s output directory',
+              'the packaging loop mutates paths outside the node\'s output directory: %s' % '; '.join('%s %s' % (e.kind, vstr(norm(sl, e.path))[:120]) for e in outside[:3]))
+    # buildpack.toml <- <node dir>/buildpack.toml, same node
+    copies = [e for e in may if e.call is not None and e.call.is_('std::fs::copy') and e.args]
+    desc = [e for e in copies if under(e.path) is not None and tuple(const_of(x) for x in under(e.path)) == ('buildpack.toml',)]
+    good = bool(desc)
+    for e in desc:
+        sc = path_comps(norm(sl, e.args[0]), lambda r: node_of(r, 'path') is not None and same(node_of(r, 'path'), node))
+        good = good and sc is not None and tuple(const_of(x) for x in sc) == ('buildpack.toml',)
+    rep.check(good, 'R8', 'descriptor-source', desc[0].where() if desc else _w(ex), 'buildpack.toml of a node is copied from that node\'s own directory (%d writer(s))' % len(desc),
+              'buildpack.toml in the output directory is not a copy of <node.path>/buildpack.toml of the node being packaged')
+    # bin/build <- <target dir of the node's own cargo metadata>/<triple>/<profile dir>/<main target of that metadata>
+    mains = [e for e in copies if under(e.path) is not None and tuple(const_of(x) for x in under(e.path)) == ('bin', 'build')]
+    spawns = [e for e in may if e.kind == 'SPAWN' and in_loop(e)]
+    triples = []
+    good = bool(spawns)
+    why = []
+    for e in spawns:
+        cp = command_parts(norm(sl, e.path))
+        consts = [const_of(a) for a in cp['args']]
+        tv = cp['args'][consts.index('--target') + 1] if '--target' in consts and consts.index('--target') + 1 < len(consts) else None
+        cwd_ok = cp['cwd'] is not None and node_of(cp['cwd'], 'path') is not None and same(node_of(cp['cwd'], 'path'), node)
+        this = const_of(cp['program']) == 'cargo' and consts[:1] == ['build'] and tv is not None and not cp['opaque'] and cwd_ok
+        if not this:
+            why.append('program=%s argv=%s cwd=%s' % (vstr(cp['program'] or ('unknown', '?'))[:30], [c if c is not None else '<value>' for c in consts], vstr(cp['cwd'] or ('unknown', 'none'))[:80]))
+        good = good and this
+        if tv is not None:
+            triples.append(tv)
+    rep.check(good, 'R8', 'cargo-build', spawns[0].where() if spawns else _w(ex), '`cargo build --target <triple>` runs in the directory of the node being packaged',
+              'the build of a node is not `cargo build --target <triple>` in that node\'s directory: %s' % ('; '.join(why) or 'no build command'))
+    good = bool(mains)
+    why = ''
+    for e in mains:
+        sv = norm(sl, e.args[0])
+        holder = []
+
+        def is_td(r, holder=holder):
+            if r[0] == 'field' and r[2] == 'target_directory':
+                holder.append(strip(r[1]))
+                return True
+            return False
+        sc = path_comps(sv, is_td)
+        this = sc is not None and len(sc) == 3 and bool(holder)
+        if this:
+            md = holder[0]
+            own = False
+            for x in walk(md):
+                if x[0] == 'call' and x[1].endswith('MetadataCommand::manifest_path') and len(x[2]) == 2:
+                    mc = path_comps(x[2][1], lambda r: node_of(r, 'path') is not None and same(node_of(r, 'path'), node))
+                    own = own or (mc is not None and tuple(const_of(c) for c in mc) == ('Cargo.toml',))
+                if x[0] == 'call' and x[1].endswith('MetadataCommand::current_dir') and len(x[2]) == 2:
+                    own = own or (node_of(x[2][1], 'path') is not None and same(node_of(x[2][1], 'path'), node))
+            t = strip(sc[2])
+            this = own and any(same(sc[0], tv) for tv in triples) and select_map(sc[1]) == {'Release': 'release', 'Dev': 'debug'} and \
+                t[0] == 'call' and t[1] == DETERMINE and len(t[2]) == 1 and same(t[2][0], md)
+        if not this:
+            why = vstr(sv)[:400]
+        good = good and this
+    rep.check(good, 'R8', 'main-binary-source', mains[0].where() if mains else _w(ex),
+              'bin/build <- <target dir of the node\'s own manifest>/<triple that was built>/<debug|release by profile>/<main target of that manifest>',
+              'bin/build is not copied from the artifact `cargo build` produced for this node (target directory of the node\'s own Cargo.toml / built triple / profile directory / determined main target): %s' % why)
+
+
+# ---- R9: build_binary ---------------------------------------------------------------------------------------
+BUILD = 'libcnb_package::build::build_binary'
+_RES_CLOSURE = ('::and_then', '::map', '::and', '::then', '::then_some')
+
+
+def success_points(E, fn, depth=0):
+    """[(fn, bb)] where a success value of fn comes into being: its own `Ok(..)` / plain value sites, and — when the value
+    is the result of `x.and_then(closure)` / `x.map(closure)` in tail position — the success sites of that closure"""
+    out = []
+    sl = E.slicer
+    for st in E.sites(fn):
+        done = False
+        if st.kind == 'tail' and st.call is not None and depth < 4 and (st.call.decl or '').endswith(('::and_then', '::map')):
+            for a in st.call.args[1:]:
+                v = strip(sl.operand(fn, a))
+                g = E.prog.fns.get(v[1]) if v[0] == 'closure' else None
+                if g is not None:
+                    out.extend(success_points(E, g, depth + 1))
+                    done = True
+        if not done:
+            out.append((fn, st.bb))
+    return out
+
+
+def rules_build_binary(ctx, rep):
+    prog, sl = ctx.prog, ctx.slicer
+    from .lib.effects import Effects
+    rep.rule('R9', 'build_binary: the artifact path handed back is the one `cargo build` wrote for this triple / profile / target, and only after a successful build')
+    bf = prog.fns.get(BUILD)
+    if bf is None:
+        rep.unproven('R9', 'build_binary', '-', 'libcnb_package::build::build_binary not found')
+        return
+    rep.analysed(bf)
+    E = Effects(prog, sl)
+    fns = [bf] + prog.closures_of(bf)
+    is_param = lambda i: (lambda v: strip(peel_path(v))[0] == 'param' and strip(peel_path(v))[1] == bf.path and strip(peel_path(v))[2] == i)
+    # (a) success only after a successful cargo run
+    pts = success_points(E, bf)
+    good = bool(pts)
+    for g, bb in pts:
+        this = False
+        for cd in conditions_ctx(prog, g, bb, sl):
+            if cd.kind != 'bool':
+                continue
+            for v, oc in cd.views():
+                v, oc = _peel_not(v, oc)
+                v = strip(v)
+                if v[0] == 'call' and v[1] == 'std::process::ExitStatus::success' and oc is True and v[2] and \
+                        any(x[0] == 'call' and x[1] in ('std::process::Command::spawn', 'std::process::Command::status', 'std::process::Command::output') for x in walk(v[2][0])):
+                    this = True
+        good = good and this
+    rep.check(good, 'R9', 'exit-status', _w(bf), 'the binary path is handed back only when cargo\'s exit status is success()',
+              'build_binary can return Ok(<binary path>) although `cargo build` did not exit successfully: a stale artifact of an earlier build would be packaged')
+    # (b) the path
+    rv = sl.inline_deep(sl.mk_unwrap(sl.local(bf, 0), 1), depth=6)
+    sc = path_comps(rv, lambda r: r[0] == 'field' and r[2] == 'target_directory' and is_param(1)(r[1]))
+    dirs = select_map(sc[1]) if sc is not None and len(sc) == 3 else None
+    subj = strip(strip(sc[1])[1]) if dirs is not None else None
+    ok = dirs == {'Release': 'release', 'Dev': 'debug'} and is_param(4)(sc[0]) and is_param(5)(sc[2]) and is_param(2)(subj)
+    rep.check(ok, 'R9', 'binary-path', _w(bf), '<metadata.target_directory>/<target triple>/<debug|release by profile>/<target name>',
+              'the path handed back is not <metadata.target_directory>/<target_triple>/<debug for Dev, release for Release>/<target_name>: %s' % vstr(rv)[:300])
+    # (c) `--release` is passed exactly for the profile whose artifacts are read from release/: every call that is handed
+    # the literal, in build_binary or in a private helper it calls, as an effect of build_binary with the decisions taken at
+    # every level of the call chain in build_binary's terms
+    reach = prog.reach([bf])
+    lit_calls = [(g, c, i) for g in reach.values() for c in g.calls for i, a in enumerate(c.args) if const_of(sl.operand(g, a)) == '--release']
+    anywhere = any(x[0] == 'const' and x[1] == '--release' for g in reach.values() for b in g.blocks for st in b['s'] if st[0] == '='
+                   for x in walk(sl._rvalue(g, st[2], set(), 0, None)))
+    if not lit_calls and anywhere:
+        rep.unproven('R9', 'release-flag', _w(bf), 'the literal --release is used in a way the rule cannot read (not a plain argument of a call)')
+        return
+    vocab = {}
+    for g, c, i in lit_calls:
+        if c.name:
+            vocab.setdefault(c.name, ('FLAG', i))
+    E9 = Effects(prog, sl, vocab=vocab) if vocab else E
+    flag, unreadable = set(), False
+    for e in expand(E9, bf, 'may'):
+        if e.kind != 'FLAG' or const_of(e.path) != '--release':
+            continue
+        vs = None
+        for cd, views, subj in guards_of(E9, e):
+            if cd.kind == 'variant' and subj is not None and is_param(2)(strip(subj)):
+                vs = set(cd.outcome) if vs is None else (vs & set(cd.outcome))
+            elif cd.kind == 'bool':
+                for v, oc in views:
+                    v, oc = _peel_not(v, oc)
+                    v = strip(v)
+                    if v[0] == 'call' and v[1].endswith(('::eq', '::ne')) and len(v[2]) == 2:
+                        a, b = strip(v[2][0]), strip(v[2][1])
+                        if is_param(2)(b):
+                            a, b = b, a
+                        if is_param(2)(a):
+                            if b[0] == 'agg' and isinstance(oc, bool):
+                                cur = {b[2]} if (oc == v[1].endswith('::eq')) else ({'Dev', 'Release'} - {b[2]})
+                                vs = cur if vs is None else (vs & cur)
+                            else:
+                                unreadable = True
+                        break
+        flag |= ({'Dev', 'Release'} if vs is None else vs)
+    want = {k for k, d in (dirs or {}).items() if d == 'release'}
+    if unreadable:
+        rep.unproven('R9', 'release-flag', _w(bf), 'the condition under which --release is passed cannot be read')
+    else:
+        rep.check(dirs is not None and flag == want == {'Release'}, 'R9', 'release-flag', _w(bf), '`--release` is passed exactly when the artifact is read from release/ (profile Release)',
+                  '`--release` is passed for profile(s) %s but the artifact is read from release/ for %s: the binary that is packaged is not the one that was just built' % (sorted(flag) or 'none', sorted(want) or 'none'))
+
+
+# ---- R10: which binary targets there are and which one is the buildpack (cargo.rs) ----------------------------
+def _int_guards(fn, bb, sl):
+    """[(switch operand value, frozenset of taken labels | ('not', listed))] for integer switches whose edge dominates bb
+    (also arms listing several values, which guards.conditions leaves out)"""
+    out = []
+    for sb, blk in enumerate(fn.blocks):
+        t = blk['t']
+        if t['t'] != 'switch' or t.get('oty') == 'bool':
+            continue
+        by_target = {}
+        for v, tb in t['targets']:
+            by_target.setdefault(tb, []).append(v)
+        by_target.setdefault(t['else'], []).append('else')
+        for tb, labels in by_target.items():
+            if not edge_dominates(fn, sb, tb, bb):
+                continue
+            val = sl.operand(fn, t['o'])
+            if val[0] == 'discr':
+                continue
+            listed = tuple(v for v, _ in t['targets'])
+            out.append((val, ('not', listed) if 'else' in labels else frozenset(labels)))
+    return out
+
+
+def _names_value(sl, v):
+    """the collection of binary target names with Option plumbing removed: `root_package().map(f).unwrap_or_default()`
+    -> f(<root package>)"""
+    v = strip(v)
+    for _ in range(4):
+        if v[0] == 'call' and v[1].endswith(('::unwrap_or_default', '::unwrap_or', '::unwrap_or_else')) and v[2]:
+            v = strip(sl.mk_unwrap(v[2][0], 1))
+        elif v[0] == 'phi':
+            # `match root_package() { Some(p) => names(p), None => Vec::new() }`: the empty alternative adds no names
+            rest = [x for x in v[1] if not _is_empty_coll(x)]
+            if len(rest) != 1:
+                break
+            v = strip(rest[0])
+        else:
+            break
+    return sl.inline_deep(v, depth=6)
+
+
+def _is_empty_coll(v):
+    v = strip(v)
+    return (v[0] == 'call' and not v[2] and v[1].endswith(('::new', '::default'))) or (v[0] == 'array' and not v[1])
+
+
+_COLL_VIEW = ('::as_slice', '::as_mut_slice', '::to_vec', '::as_ref', '::deref', '::clone', '::borrow', '::iter', '::into_iter', '::as_mut', '::deref_mut')
+
+
+def peel_coll(v):
+    for _ in range(12):
+        v = strip(v)
+        if v[0] == 'call' and len(v[2]) == 1 and v[1].endswith(_COLL_VIEW):
+            v = v[2][0]
+        else:
+            return v
+    return v
+
+
+def _is_root_pkg(v, md_pred):
+    v = strip(peel_path(v))
+    return v[0] == 'call' and v[1] == 'cargo_metadata::Metadata::root_package' and len(v[2]) == 1 and md_pred(strip(v[2][0]))
+
+
+def names_shape(sl, v, md_pred):
+    """is v `names of all targets t of the root package with t.is_bin()`?  -> (verdict, reason)"""
+    al = iters.alts(sl, v)
+    if len(al) != 1 or al[0][1] is None:
+        return 'unproven', 'not one pass over one collection: %s' % vstr(v)[:200]
+    el, coll, fl = al[0]
+    base = strip(peel_path(coll))
+    if not (base[0] == 'field' and base[2] == 'targets' and _is_root_pkg(base[1], md_pred)):
+        return 'unproven', 'does not range over the root package\'s targets: %s' % vstr(coll)[:200]
+    if fl == 'trunc':
+        return 'violated', 'a truncating adapter (map_while / take_while / take / skip ..) stops at or skips targets by position: binary targets after the first non-binary one are lost'
+    t = iters.elem_of(coll)
+    preds = []
+    payload = None
+    for name, clv, rv, stopped in iters.stages(strip(v), with_stop=True):
+        if stopped:
+            return 'violated', 'a later stage stops pulling early'
+        short = name.rsplit('::', 1)[1]
+        ra = iters.alts(sl, rv)
+        if len(ra) != 1:
+            return 'unproven', 'stage %s over several alternatives' % short
+        r = sl.apply_closure(clv, (ra[0][0],))
+        if r is None:
+            return 'unproven', 'closure of stage %s not readable' % short
+        if short == 'filter':
+            preds.append(_peel_not(strip(r)))
+        elif short == 'filter_map':
+            r = strip(r)
+            if r[0] == 'call' and r[1].endswith('::then_some') and len(r[2]) == 2:
+                preds.append(_peel_not(strip(r[2][0])))
+                payload = r[2][1]
+            elif r[0] == 'call' and r[1].endswith('::then') and len(r[2]) == 2:
+                preds.append(_peel_not(strip(r[2][0])))
+                payload = sl.apply_closure(r[2][1], ())
+            else:
+                return 'unproven', 'filter_map closure is not `<test>.then_some(<value>)`: %s' % vstr(r)[:160]
+        elif short == 'map':
+            payload = r
+        elif short == 'inspect':
+            continue
+        else:
+            return 'unproven', 'stage %s' % short
+    if payload is None:
+        payload = el
+    pv = strip(peel_path(payload))
+    if not (pv[0] == 'field' and pv[2] == 'name' and canon(strip(peel_path(pv[1]))) == canon(strip(t))):
+        return 'violated', 'the collected value is not the target\'s own name: %s' % vstr(payload)[:160]
+    good = [p for p in preds if strip(p[0])[0] == 'call' and strip(p[0])[1] == 'cargo_metadata::Target::is_bin' and p[1] is True and
+            canon(strip(peel_path(strip(p[0])[2][0]))) == canon(strip(t))]
+    if len(preds) != 1 or len(good) != 1:
+        return ('violated' if not fl or len(preds) != len(good) else 'unproven'), 'the only per-target condition must be target.is_bin(): %s' % [vstr(p[0])[:80] for p in preds]
+    return 'ok', ''
+
+
+def rules_cargo(ctx, rep):
+    prog, sl = ctx.prog, ctx.slicer
+    from .lib.effects import Effects
+    rep.rule('R10', 'cargo.rs: the binary targets are all `bin` targets of the root package; the buildpack binary is the only one or the one named like the package')
+    nf, df = prog.fns.get(NAMES), prog.fns.get(DETERMINE)
+    if nf is None or df is None:
+        rep.unproven('R10', 'functions', '-', 'cargo_binary_target_names / determine_buildpack_cargo_target_name not found')
+        return
+    rep.analysed(nf)
+    rep.analysed(df)
+    E = Effects(prog, sl)
+    p0 = lambda f: (lambda v: v[0] == 'param' and v[1] == f.path and v[2] == 0)
+    nv = _names_value(sl, sl.local(nf, 0))
+    vd, why = names_shape(sl, nv, p0(nf))
+    if vd == 'unproven':
+        rep.unproven('R10', 'binary-target-names', _w(nf), 'cannot read the set of binary target names: ' + why)
+    else:
+        rep.check(vd == 'ok', 'R10', 'binary-target-names', _w(nf), 'binary targets = names of all targets of the root package with is_bin()', why)
+    # the buildpack's own target
+    root_name = lambda v: (lambda x: x[0] == 'field' and x[2] == 'name' and _is_root_pkg(x[1], p0(df)))(strip(peel_path(v)))
+
+    def is_names(v):
+        # the collection of binary target names, whatever R10/binary-target-names says about how it is filtered
+        x = peel_coll(sl.inline_deep(peel_coll(v), depth=6))
+        while x[0] == 'call' and len(x[2]) == 1 and (iters._is_source(x[1]) or x[1] in iters.SAME):
+            x = peel_coll(x[2][0])
+        al = iters.alts(sl, x)
+        if len(al) != 1 or al[0][1] is None:
+            return False
+        base = strip(peel_path(al[0][1]))
+        return base[0] == 'field' and base[2] == 'targets' and _is_root_pkg(base[1], p0(df))
+
+    def membership(v, oc):
+        v, oc = _peel_not(v, oc)
+        v = strip(v)
+        if oc is not True or v[0] != 'call' or len(v[2]) != 2:
+            return False
+        if v[1].endswith('::contains'):
+            return is_names(v[2][0]) and root_name(v[2][1])
+        if v[1] == IT + 'any' and is_names(v[2][0]):
+            ra = iters.alts(sl, v[2][0])
+            r = sl.apply_closure(v[2][1], (ra[0][0],)) if len(ra) == 1 else None
+            r = strip(r) if r is not None else None
+            if r is not None and r[0] == 'call' and r[1].endswith('::eq') and len(r[2]) == 2:
+                a, b = r[2]
+                return (root_name(a) and same(peel_path(b), ra[0][0])) or (root_name(b) and same(peel_path(a), ra[0][0]))
+        return False
+    bad, unread = [], []
+    pts = []
+    for st in E.sites(df):
+        for v, ch in E.returned(df, st):
+            pts.append((st, v))
+    for st, v in pts:
+        u = strip(sl.mk_unwrap(v, 1))
+        conds = conditions(df, st.bb, sl)
+        if root_name(u):
+            ok = any(membership(x, oc) for cd in conds if cd.kind == 'bool' for x, oc in cd.views())
+            if not ok:
+                bad.append('the package name is used without checking that a binary target has that name')
+            continue
+        w0 = u
+        if w0[0] == 'call' and w0[1].endswith('::then_some') and len(w0[2]) == 2:
+            if membership(w0[2][0], True) and root_name(w0[2][1]):
+                continue
+            bad.append('the package-named target is not guarded by "is among the binary targets"')
+            continue
+        # the only binary target: pop / first / last / next / [i] of the names, under len <= 1
+        w0 = strip(peel_path(w0))
+        single = (w0[0] == 'call' and w0[1].endswith(('::pop', '::first', '::last', '::next', '::remove', '::swap_remove')) and w0[2] and is_names(w0[2][0])) or \
+            (w0[0] == 'index' and is_names(w0[1]))
+        if single:
+            def len_of(x):
+                x = strip(x)
+                return (x[0] == 'call' and x[1].endswith('::len') and len(x[2]) == 1 and is_names(x[2][0])) or (x[0] == 'un' and x[1] == 'PtrMetadata' and is_names(x[2]))
+            lens = [labels for gv, labels in _int_guards(df, st.bb, sl) if len_of(gv)]
+            for cd in conds:
+                if cd.kind == 'bool':
+                    for x, oc in cd.views():
+                        x, oc = _peel_not(x, oc)
+                        if x[0] == 'bin' and len_of(x[2]):
+                            k = const_of(x[3])
+                            if (x[1], k, oc) in (('Le', 1, True), ('Lt', 2, True), ('Eq', 1, True), ('Gt', 1, False), ('Ge', 2, False)):
+                                lens.append(frozenset({0, 1}))
+            if any(isinstance(l, frozenset) and l <= {0, 1} for l in lens):
+                continue
+            bad.append('one of several binary targets is picked by position instead of by the package name')
+            continue
+        unread.append(vstr(u)[:200])
+    if unread and not bad:
+        rep.unproven('R10', 'main-target', _w(df), 'a way to determine the buildpack\'s binary target that is neither "the only binary target" nor "the target named like the package": %s' % '; '.join(unread))
+    else:
+        rep.check(not bad and bool(pts), 'R10', 'main-target', _w(df), 'buildpack binary = the only binary target, or the binary target named like the root package (else an error)',
+                  '; '.join(bad) or 'no success value')
+
+
+# ---- R11: which packaging function a directory gets (buildpack_kind.rs + dispatch) -----------------------------
+KIND = 'libcnb_package::buildpack_kind::determine_buildpack_kind'
+PB = 'libcnb_package::package::package_buildpack'
+PL = 'libcnb_package::package::package_libcnb_buildpack'
+PC = 'libcnb_package::package::package_composite_buildpack'
+_STAT = ('std::path::Path::is_file', 'std::path::Path::exists', 'std::path::Path::try_exists')
+
+
+def all_closures(prog, f):
+    out = []
+    for c in prog.closures_of(f):
+        out.append(c)
+        out.extend(all_closures(prog, c))
+    return out
+
+
+def rules_kind(ctx, rep):
+    prog, sl = ctx.prog, ctx.slicer
+    from .lib.effects import Effects
+    rep.rule('R11', 'a directory is packaged as libcnb.rs buildpack iff its descriptor is a component one and it has a Cargo.toml, as composite iff the descriptor is a composite one')
+    kf, pb = prog.fns.get(KIND), prog.fns.get(PB)
+    if kf is None or pb is None:
+        rep.unproven('R11', 'functions', '-', 'determine_buildpack_kind / package_buildpack not found')
+        return
+    rep.analysed(kf)
+    E = Effects(prog, sl)
+    p0 = lambda v: strip(peel_path(v))[0] == 'param' and strip(peel_path(v))[1] == kf.path and strip(peel_path(v))[2] == 0
+    reads = [e for e in E.expand(kf, 'may') if e.kind == 'READ' and e.path is not None and
+             tuple(const_of(x) for x in (path_comps(e.path, p0) or ())) == ('buildpack.toml',)]
+    found = {}
+    for g in [kf] + all_closures(prog, kf):
+        for bi, b in enumerate(g.blocks):
+            for st in b['s']:
+                if st[0] == '=' and st[2]['r'] == 'agg' and str(st[2].get('adt', '')).endswith('BuildpackKind'):
+                    desc, cargo, extra = None, [], []
+                    for cd in conditions_ctx(prog, g, bi, sl):
+                        if cd.kind == 'variant' and (cd.enum or '').startswith(('std::result::Result', 'std::option::Option')):
+                            continue
+                        if cd.kind == 'variant' and (cd.enum or '').endswith('BuildpackDescriptor'):
+                            desc = set(cd.outcome) if desc is None else (desc & set(cd.outcome))
+                            continue
+                        hit = False
+                        if cd.kind == 'bool':
+                            for v, oc in cd.views():
+                                v, oc = _peel_not(v, oc)
+                                v = strip(v)
+                                if v[0] == 'call' and v[1] in _STAT and v[2] and tuple(const_of(x) for x in (path_comps(v[2][0], p0) or ())) == ('Cargo.toml',):
+                                    cargo.append(oc)
+                                    hit = True
+                                    break
+                        if not hit:
+                            extra.append(vstr(cd.subject if cd.subject is not None else cd.value)[:80])
+                    found.setdefault(st[2].get('variant'), []).append((desc, cargo, extra))
+    lib = found.get('LibCnbRs', [])
+    ok = bool(lib) and bool(reads) and all(d == {'Component'} and c == [True] and not x for d, c, x in lib)
+    rep.check(ok, 'R11', 'kind-libcnb', _w(kf), 'LibCnbRs <=> component descriptor in <dir>/buildpack.toml and <dir>/Cargo.toml exists',
+              'a directory is classified as libcnb.rs buildpack under other conditions than "component descriptor and Cargo.toml present": %s' %
+              [('descriptor=%s' % (sorted(d) if d else 'any'), 'Cargo.toml=%s' % c, x) for d, c, x in lib])
+    comp = found.get('Composite', [])
+    ok = bool(comp) and bool(reads) and all(d == {'Composite'} and not c and not x for d, c, x in comp)
+    rep.check(ok, 'R11', 'kind-composite', _w(kf), 'Composite <=> composite descriptor in <dir>/buildpack.toml (whatever else the directory holds)',
+              'a composite descriptor does not always make the directory a composite buildpack: %s' %
+              [('descriptor=%s' % (sorted(d) if d else 'any'), 'Cargo.toml=%s' % c, x) for d, c, x in comp])
+    Ek = Effects(prog, sl, vocab={PL: ('LIBCNB', 0), PC: ('COMPOSITE', 0)})
+    want = {'LIBCNB': {'LibCnbRs'}, 'COMPOSITE': {'Composite'}}
+    seen = {}
+    pp0 = lambda v: strip(peel_path(v))[0] == 'param' and strip(peel_path(v))[1] == pb.path and strip(peel_path(v))[2] == 0
+    for e in expand(Ek, pb, 'may'):
+        if e.kind not in want:
+            continue
+        kinds = None
+        for cd, views, subj in guards_of(Ek, e):
+            if cd.kind == 'variant' and (cd.enum or '').endswith('BuildpackKind') and subj is not None and \
+                    any(x[0] == 'call' and x[1] == KIND and x[2] and pp0(x[2][0]) for x in walk(subj)):
+                kinds = set(cd.outcome) if kinds is None else (kinds & set(cd.outcome))
+        seen.setdefault(e.kind, []).append(kinds == want[e.kind] and pp0(e.path))
+    ok = all(seen.get(k) and all(seen[k]) for k in want)
+    rep.check(ok, 'R11', 'kind-dispatch', _w(pb), 'package_buildpack: LibCnbRs -> package_libcnb_buildpack, Composite -> package_composite_buildpack, both on the directory that was classified',
+              'package_buildpack does not dispatch on determine_buildpack_kind(<its directory>) as LibCnbRs -> libcnb packaging, Composite -> composite packaging: %s' % seen)
+
+
+# ---- R12: which directories are buildpacks at all (find_buildpack_dirs, workspace root) ------------------------
+FBD = 'libcnb_package::find_buildpack_dirs'
+_WB = 'ignore::WalkBuilder::'
+_WB_FILTER_OFF = ('ignore', 'git_ignore', 'git_exclude', 'git_global', 'parents', 'standard_filters')
+_WB_HARMLESS = ('hidden', 'follow_links', 'threads', 'sort_by_file_name', 'sort_by_file_path', 'require_git', 'same_file_system')
+
+
+def walker_verdict(v, root_pred):
+    """v: the iterated walker -> (verdict, reason)"""
+    v = strip(v)
+    if v[0] == 'call' and v[1] == 'ignore::Walk::new' and len(v[2]) == 1:
+        return ('ok', '') if root_pred(v[2][0]) else ('violated', 'the walk does not start at the given directory')
+    if v[0] == 'call' and v[1] == _WB + 'build' and v[2]:
+        v = strip(v[2][0])
+        while v[0] == 'call' and v[1].startswith(_WB) and v[2]:
+            short = v[1][len(_WB):]
+            if short == 'new':
+                return ('ok', '') if root_pred(v[2][0]) else ('violated', 'the walk does not start at the given directory')
+            a = strip(v[2][1]) if len(v[2]) > 1 else None
+            if short in _WB_FILTER_OFF:
+                if a is None or a[0] != 'const' or a[1] is not True:
+                    return 'violated', 'WalkBuilder::%s(%s): ignore files are not honoured, so buildpack directories in an ignored output directory are picked up as buildpacks' % (short, vstr(a) if a else '')
+            elif short == 'max_depth':
+                if not (a is not None and a[0] == 'agg' and a[2] == 'None'):
+                    return 'violated', 'WalkBuilder::max_depth: buildpacks below that depth are not found'
+            elif short not in _WB_HARMLESS:
+                return 'unproven', 'WalkBuilder::%s' % short
+            v = strip(v[2][0])
+    return 'unproven', 'not an ignore::Walk over the given directory: %s' % vstr(v)[:120]
+
+
+def truth_paths(sl, g):
+    """for a closure / function returning bool: the conjunction [(value, outcome)..] that holds whenever it returns true
+    (`a && b`, `if a { b } else { false }`, `matches!` ..); None when true can be returned in more than one way"""
+    alts_ = []
+    for d in g.whole_defs(0):
+        if d[0] == 'stmt':
+            v = sl._rvalue(g, d[3], set(), 0, None)
+        elif d[0] == 'call':
+            v = sl._call_value(g, d[3], set(), 0)
+        else:
+            return None
+        v, oc = _peel_not(strip(v), True)
+        if v[0] == 'const':
+            if bool(v[1]) != oc:
+                continue        # this path returns false
+            own = []
+        else:
+            own = [(v, oc)]
+        cs = []
+        for cd in conditions(g, d[1], sl):
+            if cd.kind == 'bool':
+                cs.append(cd.views()[0])
+            else:
+                cs.append((cd.subject if cd.subject is not None else cd.value, cd.outcome))
+        alts_.append(cs + own)
+    if len(alts_) != 1:
+        return None
+    return alts_[0]
+
+
+def rules_discovery(ctx, rep):
+    prog, sl = ctx.prog, ctx.slicer
+    from .lib.effects import Effects
+    rep.rule('R12', 'discovery: every directory with a buildpack.toml below the workspace root that is not ignored is a candidate; the workspace root is cargo\'s')
+    fb, wr = prog.fns.get(FBD), prog.fns.get(WR)
+    if fb is None or wr is None:
+        rep.unproven('R12', 'functions', '-', 'find_buildpack_dirs / find_cargo_workspace_root_dir not found')
+        return
+    rep.analysed(fb)
+    rep.analysed(wr)
+    E = Effects(prog, sl)
+    p0 = lambda f: (lambda v: strip(peel_path(v))[0] == 'param' and strip(peel_path(v))[1] == f.path and strip(peel_path(v))[2] == 0)
+    v = sl.inline_deep(sl.mk_unwrap(sl.local(fb, 0), 1), depth=6)
+    al = iters.alts(sl, v)
+    verdict, why = 'ok', ''
+    if len(al) != 1 or al[0][1] is None:
+        verdict, why = 'unproven', 'the result is not one pass over one walk: %s' % vstr(v)[:200]
+    else:
+        el, coll, fl = al[0]
+        verdict, why = walker_verdict(coll, p0(fb))
+        if verdict == 'ok' and (fl == 'trunc' or any(st[3] for st in iters.stages(strip(v), with_stop=True))):
+            verdict, why = 'violated', 'a truncating adapter (map_while / take_while / take / skip ..) ends the walk at the first entry that is not a buildpack directory'
+        if verdict == 'ok':
+            # the decision per entry: <entry>/buildpack.toml exists (and the entry is a directory), nothing else
+            entry = iters.elem_of(coll)
+            is_entry_path = lambda r: (lambda x: x[0] == 'call' and x[1].endswith('DirEntry::path') and x[2] and canon(strip(peel_path(x[2][0]))) == canon(strip(entry)))(strip(peel_path(r)))
+            tests, other = [], []
+            for name, clv, rv, stopped in iters.stages(strip(v), with_stop=True):
+                g = prog.fns.get(clv[1]) if clv[0] == 'closure' else None
+                short = name.rsplit('::', 1)[1]
+                if short in ('map', 'inspect'):
+                    continue
+                if g is None or short not in ('filter', 'filter_map'):
+                    other.append(short)
+                    continue
+                ra = iters.alts(sl, rv)
+                m = {(g.path, 1): ra[0][0]} if len(ra) == 1 else {}
+                pts = [(g, s.bb) for s in E.sites(g)] if short == 'filter_map' else [(g, b) for b in g.return_blocks()]
+                if short == 'filter_map':
+                    pts = [(g, bi) for bi, b in enumerate(g.blocks) for st in b['s'] if st[0] == '=' and st[2]['r'] == 'agg' and st[2].get('variant') == 'Some']
+                    if not pts:
+                        r = sl.apply_closure(clv, (ra[0][0],)) if len(ra) == 1 else None
+                        r = strip(r) if r is not None else None
+                        if r is not None and r[0] == 'call' and r[1].endswith(('::then_some', '::then')) and len(r[2]) == 2:
+                            tests.append((r[2][0], True))
+                        else:
+                            other.append('filter_map closure')
+                        continue
+                    for g_, bi in pts:
+                        for cd in conditions(g_, bi, sl):
+                            if cd.kind == 'bool':
+                                tests.extend((E.subst(x, m), oc) for x, oc in cd.views()[:1])
+                            elif not (cd.enum or '').startswith(('std::option::Option', 'std::result::Result')):
+                                other.append('match on %s' % cd.enum)
+                else:
+                    tp = truth_paths(sl, g)
+                    if tp is None or len(ra) != 1:
+                        other.append('filter closure')
+                    else:
+                        tests.extend((E.subst(x, m), oc) for x, oc in tp)
+            has_desc = False
+            for t, oc in tests:
+                t, oc = _peel_not(strip(t), oc)
+                t = strip(t)
+                if t[0] == 'bin' and t[1] in ('BitAnd', 'And'):
+                    parts = [(t[2], oc), (t[3], oc)]
+                else:
+                    parts = [(t, oc)]
+                for x, o in parts:
+                    x = strip(x)
+                    if x[0] == 'call' and x[1] in _STAT and o is True and x[2] and \
+                            tuple(const_of(c) for c in (path_comps(x[2][0], is_entry_path) or ())) == ('buildpack.toml',):
+                        has_desc = True
+                    elif x[0] == 'call' and x[1] == 'std::path::Path::is_dir' and o is True and x[2] and is_entry_path(x[2][0]):
+                        pass
+                    else:
+                        other.append(vstr(x)[:100])
+            payload = strip(sl.mk_unwrap(el, 1)) if strip(el)[0] != 'call' else strip(el)
+            pay_ok = any(x[0] == 'call' and x[1].endswith('DirEntry::path') for x in walk(el))
+            if other:
+                verdict, why = 'unproven', 'entries are selected by more than "<entry>/buildpack.toml exists": %s' % other[:3]
+            elif not has_desc or not pay_ok:
+                verdict, why = 'violated', 'the entries returned are not the directories holding a buildpack.toml'
+    if verdict == 'unproven':
+        rep.unproven('R12', 'walk', _w(fb), why)
+    else:
+        rep.check(verdict == 'ok', 'R12', 'walk', _w(fb), 'all directories with a buildpack.toml found by an ignore-file honouring walk below the start directory', why)
+    # the workspace root: `cargo locate-project --workspace` run in the given directory
+    sp = [e for e in E.expand(wr, 'may') if e.kind == 'SPAWN']
+    ok = bool(sp)
+    why = 'no command'
+    for e in sp:
+        cp = command_parts(sl.inline_deep(e.path, depth=4))
+        consts = [const_of(a) for a in cp['args']]
+        this = 'locate-project' in consts and '--workspace' in consts and cp['cwd'] is not None and p0(wr)(cp['cwd']) and not cp['opaque']
+        if not this:
+            why = 'argv=%s cwd=%s' % (consts, vstr(cp['cwd'] or ('unknown', 'none'))[:60])
+        ok = ok and this
+    rep.check(ok, 'R12', 'workspace-root', _w(wr), '`cargo locate-project --workspace` in the given directory',
+              'the workspace root is not determined by `cargo locate-project --workspace` run in the invocation directory (%s): from a buildpack\'s own directory the buildpack\'s '
+              'crate is taken for the workspace, and dependencies elsewhere in the workspace are not found' % why)
